@@ -19,7 +19,7 @@ REPO = os.environ.get("VERIF_REPO", "/repo")
 WORK = os.environ.get("VERIF_WORK", "/var/tmp/routinator-verif")
 KANI_TARGET = os.path.join(WORK, "kani-target")
 MIR_TARGET = os.path.join(WORK, "mir-target")
-EVIDENCE_DIR = os.path.join(VERIF, "evidence")
+EVIDENCE_DIR = os.environ.get("VERIF_EVIDENCE_DIR") or os.path.join(VERIF, "evidence")   # seed / mutation runs redirect it
 KNOWN_FINDINGS = os.path.join(VERIF, "known_findings.json")
 
 COPY_DIRS = ["src", "tals", "test"]
